@@ -17,6 +17,23 @@ class Context:
     def __init__(self, repo, contracts, specfun_source):
         self.source = Source(repo)
         self.contracts = contracts  # list of contract dicts
+        # names the contracts use for ghost state, per module (kept apart from the code's locals, see Source._separate_ghost_names)
+        gn = {}
+        for c in contracts:
+            texts = [c.get("ghost_entry") or ""]
+            names = set()
+            for spec in (c.get("loops") or {}).values():
+                names |= set(spec.get("ghost_vars", []) or [])
+                texts += [spec.get("ghost_body_start") or "", spec.get("ghost_body_end") or ""]
+            for t in texts:
+                try:
+                    for n in ast.walk(ast.parse(t)):
+                        if isinstance(n, ast.Name) and isinstance(n.ctx, ast.Store):
+                            names.add(n.id)
+                except SyntaxError:
+                    pass
+            gn.setdefault(c.get("module"), set()).update(names)
+        self.source.ghost_names = gn
         self.specfuns = {}
         tree = ast.parse(specfun_source)
         self.opaque = set()
